@@ -234,7 +234,12 @@ func c17timing() {
 	for _, life := range []time.Duration{400 * time.Millisecond, 900 * time.Millisecond} {
 		t0 := time.Now()
 		vi := v.AddInstance(noneAlgo(), 7, 1, 0, t0, life)
-		v.RunExpiration(vi)
+		done := make(chan struct{})
+		go func() { v.RunExpiration(vi); close(done) }()
+		select {
+		case <-done:
+		case <-time.After(life*5/4 + 700*time.Millisecond): // the routine did not finish: reported as not removed
+		}
 		el := time.Since(t0)
 		enc.Encode(map[string]any{"name": "timing", "life_ms": life.Milliseconds(), "elapsed_ms": el.Milliseconds(),
 			"removed": len(v.InstanceObjs()[7]) == 0})
